@@ -112,6 +112,74 @@ def seq_wrw(k):
     return A.arr
 
 
+def same_index_two_arrays(k):
+    """one index object used on a longer and then on a shorter array (reads and a write)"""
+    A = k.ar.Array(cells(k, 3, True, "a"))
+    B = k.ar.Array(cells(k, 2, True, "b"))
+    i = k.S("i")
+    r1 = A[i]
+    r2 = B[i]
+    B[i] = k.S("y")
+    return [r1, r2] + list(B.arr)
+
+
+def ref_same_index_two_arrays(k):
+    i, y = k.v("i"), k.v("y")
+    return [sel(i, cvals(k, 3, True, "a")), sel(i, cvals(k, 2, True, "b"))] + upd(i, cvals(k, 2, True, "b"), y)
+
+
+def same_index_rect(k):
+    """m[i, i] on a 3x2 matrix: the same index object selects a row (3) and a column (2)"""
+    rows = [k.ar.Array(cells(k, 2, True, p)) for p in ("a", "b", "c")]
+    m = k.ar.Array(rows)
+    i = k.S("i")
+    return m[i, i]
+
+
+def ref_same_index_rect(k):
+    i = k.v("i")
+    rows = [cvals(k, 2, True, p) for p in ("a", "b", "c")]
+    return sel(i, [sel(i, r) for r in rows])
+
+
+def branch_2d_write(k):
+    """a 2-D array held in a branching context, written inside an _if region at a constant row and secret column"""
+    br = k.br
+    ctx = br.BranchingValues()
+    ctx.m = k.ar.Array([k.ar.Array(cells(k, 2, True, "a")), k.ar.Array(cells(k, 2, True, "b"))])
+    br._if(k.S("c"), ctx=ctx)
+    ctx.m[1, k.S("j")] = k.S("y")
+    br._endif(ctx=ctx)
+    m = ctx.m
+    return [[m[0, 0], m[0, 1]], [m[1, 0], m[1, 1]]]
+
+
+def ref_branch_2d_write(k):
+    c, j, y = k.v("c"), k.v("j"), k.v("y")
+    rows = [[k.v("a0"), k.v("a1")], [k.v("b0"), k.v("b1")]]
+    return [rows[0], [rows[1][col] + c * (j == col) * (y - rows[1][col]) for col in range(2)]]
+
+
+def branch_2d_write_else(k):
+    br = k.br
+    ctx = br.BranchingValues()
+    ctx.m = k.ar.Array([k.ar.Array(cells(k, 2, True, "a")), k.ar.Array(cells(k, 2, True, "b"))])
+    br._if(k.S("c"), ctx=ctx)
+    ctx.m[0, k.S("j")] = k.S("y")
+    br._else(ctx=ctx)
+    ctx.m[0, k.S("j")] = k.S("y") + 1
+    br._endif(ctx=ctx)
+    m = ctx.m
+    return [[m[0, 0], m[0, 1]], [m[1, 0], m[1, 1]]]
+
+
+def ref_branch_2d_write_else(k):
+    c, j, y = k.v("c"), k.v("j"), k.v("y")
+    rows = [[k.v("a0"), k.v("a1")], [k.v("b0"), k.v("b1")]]
+    w = y + (1 - c)
+    return [[rows[0][col] + (j == col) * (w - rows[0][col]) for col in range(2)], rows[1]]
+
+
 def build(n=4, tier="quick"):
     ents = []
     maxlen = 3 if tier == "quick" else 4
@@ -148,6 +216,15 @@ def build(n=4, tier="quick"):
         lambda k: inrange(k.v("i"), 2) & inrange(k.v("j"), 2), {"seq"})
     add("rows_from_reads_then_write", rows_from_reads_then_write, ("a0", "a1", "b0", "b1", "p", "j", "y"), ref_rows_from_reads,
         lambda k: inrange(k.v("p"), 2) & inrange(k.v("j"), 2), {"seq", "2d"})
+    add("same_index_two_arrays", same_index_two_arrays, ("a0", "a1", "a2", "b0", "b1", "i", "y"), ref_same_index_two_arrays,
+        lambda k: inrange(k.v("i"), 2), {"seq", "shared_index"})
+    add("same_index_rect", same_index_rect, ("a0", "a1", "b0", "b1", "c0", "c1", "i"), ref_same_index_rect,
+        lambda k: inrange(k.v("i"), 2), {"read", "2d", "shared_index"})
+    bit_c = lambda k: [(k.v("c") == 0) | (k.v("c") == 1), inrange(k.v("j"), 2)]
+    ents.append(Entry("branch_2d_write", branch_2d_write, ("a0", "a1", "b0", "b1", "c", "j", "y"), ref=ref_branch_2d_write,
+                      assume=bit_c, tags={"arr", "write", "2d", "branch"}))
+    ents.append(Entry("branch_2d_write_else", branch_2d_write_else, ("a0", "a1", "b0", "b1", "c", "j", "y"),
+                      ref=ref_branch_2d_write_else, assume=bit_c, tags={"arr", "write", "2d", "branch"}))
     if tier != "quick":
         add("seq_write_read_write", seq_wrw, ("a0", "a1", "i", "y", "j"),
             lambda k: upd(k.v("i"), upd(k.v("i"), cvals(k, 2, True), k.v("y")),
